@@ -11,10 +11,12 @@
    - in-place calls hand back the receiver itself;
    - obj.a = v IS with_a(v, _inplace=True): one and the same computation;
    - update(_inplace=True, keywords) IS the keywords assigned one after the other.
-   Refinement of whole calls to spec_helper: see the end of the file. *)
+   - refinement of whole calls to spec_helper (C05_refines_partial,
+     C05_setattr_refines_partial): proved for the guard stated there; the full
+     statement is kept in the comment above them. *)
 From Coq Require Import List ZArith Bool Arith Lia.
 From SC Require Import Base.Res Base.PyList Inst.Heap Inst.ClassTable Inst.Model Inst.Canon
-  Inst.Abs Inst.SpecHelpers Inst.RefineProofs.
+  Inst.Abs Inst.SpecHelpers Inst.RefineProofs Inst.CopyProofs.
 Import ListNotations.
 Open Scope nat_scope.
 
@@ -92,6 +94,82 @@ Theorem C05_update_is_iterated_with : forall ct l p0 ps s c d k,
   bind (assign_all (exec ct 39) l (p0 :: ps)) (fun _ => ret (VRef l)) s.
 Proof. exact update_inplace_is_iterated_setattr. Qed.
 
+(* ---------------- refinement to the documentation ---------------- *)
+(* FULL STATEMENT (property C05, kept visible; NOT proved in this generality):
+
+     Theorem C05_refines : forall ct h0 l hp h s r' s',
+       wf ct h0 s ->                           (* closed, acyclic heap; class defaults intact *)
+       run_helper ct l hp h s = (Ok (VRef r'), s') ->
+       spec_helper ct h0 (absv (heap s) (VRef l)) (shelper_of hp) (abs_args (heap s) h)
+         = SOk (absv (heap s') (VRef r'))
+       /\ (h_inplace h = true -> r' = l)
+     and, for Err e outcomes, spec_helper ... = SErr e (or SAnyErr) with the old cells unchanged.
+
+   PROVED below (C05_refines_partial / C05_setattr_refines_partial), for every
+   class table, every heap and every receiver, both outcomes (Ok and every Err):
+     helper      with_<a>(v, _inplace=True)  and the assignment  obj.a = v
+     receiver    any instance (its other attribute values arbitrary: nested
+                 instances, shared containers, ...) whose graph is acyclic
+                 (aok), with duplicate-free __dict__ keys, of an unfrozen class
+                 declaring no invalidated_by
+     attribute   not a collection (int/str/bool/None/Optional/Union/Any/spec
+                 annotations of nesting depth < 64), with NO preparer or a
+                 preparer from the pool {identity, +z, constant scalar}
+                 (layers (i) and (ii) of the plan)
+     value       a proper scalar (None, bool, int, str, atom; not a sentinel)
+     callbacks   no injected callback failure (fail_at = None)
+   MISSING for the full statement: the copy-on-write flag (needs "deepcopy
+   preserves abs"; proved so far for the attribute loop of flat instances:
+   CopyProofs.field_loop), invalidation cascades, collection-typed attributes
+   (normalisation), nested spec values / keywords / dict-as-arguments (layer
+   (iii)), update_/transform_/reset_ and the top-level helpers (their no-op,
+   identity and "is iterated assignment" parts are proved above in full
+   generality).  The correspondence check exercises all of these against the
+   implementation on every run. *)
+Theorem C05_refines_partial : forall ct h0 l a c d k sp s v,
+  nth_error (heap s) l = Some (OInst c d) -> lookup_cls ct c = Some k -> lookup_attr k a = Some sp ->
+  NoDup (map fst d) -> aok (absv (heap s) (VRef l)) = true ->
+  c_frozen k = false -> no_inval k -> fail_at s = None ->
+  ty_depth (a_ty sp) < FUEL -> ty_is_collection (a_ty sp) = false ->
+  vscalar v = true ->
+  match a_prepare sp with Some f => scalar_fn f = true | None => True end ->
+  let h := mkh [v] true true VMissing false None None [] None in
+  let ah := mkah [abs0 v] true true AMissing false None None [] None in
+  match run_helper ct l (HWith a) h s with
+  | (Ok r, s') => r = VRef l /\
+                  spec_helper ct h0 (absv (heap s) (VRef l)) (SWith a) ah = SOk (absv (heap s') (VRef l))
+  | (Err e, s') => spec_helper ct h0 (absv (heap s) (VRef l)) (SWith a) ah = SErr e /\ heap s' = heap s
+  end.
+Proof.
+  intros ct h0 l a c d k sp s v Hl Hc Ha Hd Hok Hfz Hni Hfa Hty Hnc Hv Hp.
+  exact (with_scalar_inplace_refines ct h0 l a c d k sp s Hl Hc Ha Hd Hok Hfz Hni Hfa Hty Hnc v Hv Hp).
+Qed.
+
+Theorem C05_setattr_refines_partial : forall ct h0 l a c d k sp s roots x v,
+  nth_error (heap s) l = Some (OInst c d) -> lookup_cls ct c = Some k -> lookup_attr k a = Some sp ->
+  NoDup (map fst d) -> aok (absv (heap s) (VRef l)) = true ->
+  c_frozen k = false -> no_inval k -> fail_at s = None ->
+  ty_depth (a_ty sp) < FUEL -> ty_is_collection (a_ty sp) = false ->
+  nth x roots VNone = VRef l -> vscalar v = true ->
+  match a_prepare sp with Some f => scalar_fn f = true | None => True end ->
+  let ah := mkah [abs0 v] true true AMissing false None None [] None in
+  match step ct roots (OpSetAttr x a v) s with
+  | (Ok r, s') => spec_helper ct h0 (absv (heap s) (VRef l)) (SSetAttrOp a) ah = SOk (absv (heap s') (VRef l))
+  | (Err e, s') => spec_helper ct h0 (absv (heap s) (VRef l)) (SSetAttrOp a) ah = SErr e /\ heap s' = heap s
+  end.
+Proof.
+  intros ct h0 l a c d k sp s roots x v Hl Hc Ha Hd Hok Hfz Hni Hfa Hty Hnc Hx Hv Hp.
+  exact (setattr_scalar_refines ct h0 l a c d k sp s Hl Hc Ha Hd Hok Hfz Hni Hfa Hty Hnc roots x v Hx Hv Hp).
+Qed.
+
+(* what an instance refers to never reaches the instance in an acyclic graph:
+   the lemma that lets the theorems above hold for ARBITRARY other attribute
+   values (nested instances, shared containers) *)
+Theorem C05_acyclic_fields_independent : forall h l c d n o a w,
+  nth_error h l = Some (OInst c d) -> aok (abs (S n) h (VRef l)) = true -> In (a, w) d ->
+  abs n (set_nth l o h) w = abs n h w.
+Proof. exact abs_indep_field. Qed.
+
 (* non-vacuity: a concrete class, state and calls *)
 Definition ex_ct : ctable :=
   [mkcls 2 [mkattr 1 TInt (VInt 3) None 2 true false (Some (FAddInt 1)) None [];
@@ -123,4 +201,7 @@ Print Assumptions C05_setattr_is_with_inplace.
 Print Assumptions C05_with_inplace_entry.
 Print Assumptions C05_setattr_entry.
 Print Assumptions C05_update_is_iterated_with.
+Print Assumptions C05_refines_partial.
+Print Assumptions C05_setattr_refines_partial.
+Print Assumptions C05_acyclic_fields_independent.
 Print Assumptions C05_examples.
